@@ -287,7 +287,8 @@ claim('C10', 'model_checking',
 
 claim('C11', 'model_checking',
       'Bounded model checking of the real Routine against an explicit reference automaton: every history of 3 (quick) / '
-      '4 external operations over next, send, pause, resume, stop, reset, with the body\'s behaviour at every step chosen '
+      '4 (thorough; 3 when the history begins with next or send) external operations over next, send, pause, resume, '
+      'stop, reset, play, with the body\'s behaviour at every step chosen '
       'by the decision tree among yield number (symbolic), yield object, return, raise, YieldAndReset, AlwaysYield, '
       'self-stop/pause/reset, nested routine, nested routine that tries to stop/pause/reset its caller; after every '
       'operation result/exception, state, current thread and the caller\'s logical time (z3) must agree. Condition / '
